@@ -6,13 +6,25 @@ import RedisGoModel.Conc.TraceCheck
 namespace Driver
 open Exec Resp
 
+/-- the sorted-set dump of verif_dump.go: the tree in parenthesised in-order form with stored heights, then `len`, the node count and
+    the member index; the model derives the last three from the tree -/
+def renderZTree : ZT.T → String
+| .nil => "."
+| .node l k ns h r =>
+  "(" ++ renderZTree l ++ "_" ++ hex16 (ZT.unkey k) ++ "/" ++ toString h ++ "/" ++ "+".intercalate (sortBy (· < ·) (ns.map hexV)) ++ "_"
+    ++ renderZTree r ++ ")"
+
+def renderZSet (t : ZT.T) : String :=
+  "z:" ++ renderZTree t ++ s!"|len={ZT.size t}|nodes={ZT.size t}|dict="
+    ++ ",".intercalate (sortBy (· < ·) ((ZT.members t).map fun m => hexV m.1 ++ ":" ++ hex16 (ZT.unkey m.2)))
+
 def renderEntry (e : Entry) : String :=
   let v := match e.val with
     | .str b => "s:" ++ hexV b
     | .list l => "l:" ++ ",".intercalate (l.map hexV)
     | .set s => "t:" ++ ",".intercalate (sortBy (· < ·) (s.map hexV))
     | .hash h => "h:" ++ ",".intercalate (sortBy (· < ·) (h.map fun (f, v) => hexV f ++ "=" ++ hexV v))
-    | .zset z => "z:" ++ ",".intercalate (sortBy (· < ·) (z.map fun m => hexV m.name ++ ":" ++ hex16 m.score))
+    | .zset z => renderZSet z
     | .stream s => "x:" ++ ";".intercalate (s.map fun e => s!"{e.id.ms}-{e.id.seq}=" ++ ",".intercalate (e.fields.map hexV))
   v ++ "@" ++ (match e.exp with | some d => toString d | none => "-")
 
@@ -27,17 +39,9 @@ def liveObserved (d : String) (t : Int) : String :=
       | some x => if x ≤ t then "~" else d
       | none => d
     else match dl.toInt? with
-      | some x => if x ≤ t then "~" else normZ v ++ "@" ++ dl
-      | none => normZ v ++ "@" ++ dl
+      | some x => if x ≤ t then "~" else d
+      | none => d
   | _ => d
-where
-  /-- the tree dump of a sorted set is reduced to its member index (`dict=`) here; the tree shape is judged by C12's engine -/
-  normZ (v : String) : String :=
-    if v.startsWith "z:" then
-      match v.splitOn "|dict=" with
-      | [_, dict] => "z:" ++ dict
-      | _ => v
-    else v
 
 def renderModelKey (db : Db) (k : Bytes) (t : Int) : String :=
   match db.get k with
@@ -129,7 +133,10 @@ def execLine (st : ExecSt) (fs : List String) : ExecSt × Option (Except String 
     if st.dead then (st, some (.ok false)) else
     match argvS.mapM unhex, obsS with
     | some argv, ["=>", "SKIP"] => (st, some (.ok false))
-    | some argv, "=>" :: t0 :: t1 :: reply :: dump :: fl :: evRest =>
+    | some argv, "=>" :: t0 :: t1 :: reply :: dump :: fl :: rest =>
+      -- optional trailing fields: `rf=` (ParseFloat bits of reply elements, C12) and `ev=` (hook H2 lock/access events)
+      let rfs := rest.filter (·.startsWith "rf=")
+      let evRest := rest.filter (·.startsWith "ev=")
       match t0.toInt?, t1.toInt? with
       | some t0, some t1 =>
         match checkEvents evRest with
@@ -147,6 +154,8 @@ def execLine (st : ExecSt) (fs : List String) : ExecSt × Option (Except String 
             let attempt (now : Int) (strict : Bool := false) : Except String ExecSt :=
               let env : Env := { now := now, obs := some obs, fl := parseFl fl }
               let (r, db') := exec env st.db argv
+              -- score positions (C12): the implementation's decimal text is compared by value (`rf=` = ParseFloat of reply elements)
+              let obs := normScores (scorePositions name argv r) (parseFl (rfs.headD "rf=-")) obs
               if !replyAgrees (canonReply name r) (canonReply name obs) then
                 .error s!"reply expected={hex (Resp.encode r)} got={reply}"
               else match compareDump db' spec dump t1 strict with
